@@ -78,6 +78,9 @@ def configs(tier):
     c.append({"kind": "unknown", "L": 3})
     # documented types: every numeric parameter against the type its documentation states
     c.append({"kind": "doctype"})
+    # the dump route: the parameters given to a run from a debug dump are the ones in force
+    # at the stages (shared with C17)
+    c += [{"kind": "route", "min": 5.0}, {"kind": "route", "min": 5.0, "user": True}]
     k = 1 if tier == "quick" else 4
     c += [{"kind": "xh", "func": f, "timeout": t * k, "desc": d} for f, t, d in XH]
     return c
@@ -171,6 +174,9 @@ def run_doctype(cfg):
 
 
 def run_config(cfg):
+    if cfg["kind"] == "route":
+        import c17
+        return c17.run_route(cfg)
     if cfg["kind"] == "xh":
         return xcheck.run_harness(cfg, MODULE)
     return globals()["run_" + cfg["kind"]](cfg)
@@ -446,6 +452,9 @@ def spec_bool(v):
 
 
 def replay(o):
+    if o.get("kind") == "route":
+        import c17
+        return c17.replay_route(o)
     if "module" in o:
         return xcheck.replay(o)
     vals = o["values"]
